@@ -138,7 +138,7 @@ def ensure_gen():
     """regenerate coq/Gen.v (in the build copy) from the current sources"""
     gd = os.path.join(BUILD, "gen")
     os.makedirs(gd, exist_ok=True)
-    key = file_hash(repo_sources() + [os.path.join(VERIF, "harness", "gen_dump.c"), os.path.join(VERIF, "tools", "cleaf.py")])
+    key = file_hash(repo_sources() + [os.path.join(VERIF, "harness", "gen_dump.c"), os.path.join(VERIF, "tools", "cleaf.py")]) + " bounds-strict"
     stamp = os.path.join(gd, "stamp")
     genv = os.path.join(COQB, "Gen.v")
     if os.path.exists(stamp) and open(stamp).read() == key and os.path.exists(genv) \
@@ -155,7 +155,7 @@ def ensure_gen():
         for n in names:
             f.write('{"%s", %s},\n' % (n, n))
     src = os.path.join(VERIF, "harness", "gen_dump.c")
-    san = ["-fsanitize=address,undefined", "-fno-sanitize-recover=all"]
+    san = ["-fsanitize=address,undefined", "-fsanitize=bounds-strict", "-fno-sanitize-recover=all"]
     rc, o, e = sh(["gcc", "-O1", "-g"] + san + INC + ["-I", gd, src] + lib_c_files() + ["-o", os.path.join(gd, "gen_dump")])
     if rc != 0:
         raise BuildError("compile-gen_dump", e[-4000:])
@@ -316,15 +316,13 @@ def ensure_harness(variant, san=None):
     os.makedirs(hd, exist_ok=True)
     name = "rds_harness_%s%s" % (variant, "_" + san if san else "")
     src = os.path.join(VERIF, "harness", "rds_harness.c")
-    key = file_hash(repo_sources() + [src]) + name
     stamp = os.path.join(hd, name + ".stamp")
     binp = os.path.join(hd, name)
-    if os.path.exists(stamp) and open(stamp).read() == key and os.path.exists(binp):
-        return binp
     defs, _ = VARIANTS[variant]
     flags = ["-O1", "-g", "-fno-omit-frame-pointer"]
     if san == "asan":
-        flags += ["-fsanitize=address,undefined", "-fno-sanitize-recover=all"]
+        # bounds-strict: also arrays that are the last member of their struct (rdsparser_af_t.buffer)
+        flags += ["-fsanitize=address,undefined", "-fsanitize=bounds-strict", "-fno-sanitize-recover=all"]
     cc = "gcc"
     if san == "msan":
         cc = "clang"
@@ -334,6 +332,9 @@ def ensure_harness(variant, san=None):
     if san == "mt":
         flags += ["-DHARNESS_MT", "-pthread"]
     link = [] if "-DRDSPARSER_DISABLE_HEAP" in defs else ["-Wl,--wrap=malloc"]
+    key = file_hash(repo_sources() + [src]) + name + " " + " ".join([cc] + flags + defs)
+    if os.path.exists(stamp) and open(stamp).read() == key and os.path.exists(binp):
+        return binp
     rc, o, e = sh([cc] + flags + defs + INC + [src] + lib_c_files() + link + ["-o", binp], timeout=600)
     if rc != 0:
         raise BuildError("compile-harness-" + name, e[-4000:])
